@@ -1,4 +1,457 @@
-import Pithos.Model.Lifecycle
-import Pithos.Spec.LifecycleS3
+/-
+C25 — lifecycle rules never act early or on the wrong data.
+
+Property theorems about the reconciler model `Pithos.Lifecycle` (tied to
+lifecyclereconciler.go / bucketlifecycle.go by the differential harness c25*.go), stated against
+the S3 predicates of `Pithos.LifecycleS3`. Every theorem is for ALL rule lists, ALL listings and
+ALL clocks; none carries a size bound. `WF rules` is the filter shape that
+`ValidateBucketLifecycleConfiguration` enforces (a rule has either a legacy prefix or a filter; a
+filter has at most one predicate, combinations go through `And`).
+
+Reading guide
+* `created ≤ o.lm` / `since ≤ u.lm`: the S3 predicate speaks of true creation instants; a listing
+  reports `LastModified`, which is never earlier (S3: equal; the SQL metadata store: the last row
+  update). Every "only when due" theorem holds for every true instant not later than the reported one.
+* The noncurrent sweeps work on one key's listed versions sorted by LastModified, newest first
+  (`group vs k`). The theorems locate the acted-on version `v` in that list, `u` directly before
+  it and `pre` before `u`. Under S3's reading of a listing (LastModified = creation instant, so
+  this order IS the version order) `u` is `v`'s successor and `pre.length` is the number of
+  noncurrent versions newer than `v`; `keeps_newer_noncurrent_partial` is therefore stated on that
+  order, and `lastmodified_order_breaks_retention` shows what happens when the order is perturbed.
+-/
+import Pithos.Lemmas.Lifecycle
+
 namespace Pithos.C25
+open Pithos.Lifecycle Pithos.LifecycleS3
+
+/-! ## day arithmetic -/
+
+/-- **nextMidnight_spec.** `lifecycleNextMidnightUTC t` is the first midnight strictly after `t`:
+a whole number of days, later than `t`, at most one day later. -/
+theorem nextMidnight_spec (t : Int) :
+    nextMidnight t % dayNs = 0 ∧ t < nextMidnight t ∧ nextMidnight t ≤ t + dayNs :=
+  ⟨nextMidnight_mod t, nextMidnight_gt t, nextMidnight_le t⟩
+
+/-- the code's day-based due instant is the spec's ("midnight UTC following creation + n days") -/
+theorem due_days_is_s3 (t n : Int) : dueDays t n = s3Due t n := dueDays_eq_s3Due t n
+
+/-- **matcher_is_s3_filter.** On every rule the validator accepts, `LifecycleRuleMatchesObject`
+selects exactly the objects S3's filter semantics select (prefix ∧ every tag ∧ size bounds). -/
+theorem matcher_is_s3_filter (r : Rule) (key : Bytes) (size : Int) (tags : Tags)
+    (h : filterWellFormed r = true) : ruleMatches r key size tags = selects r key size tags :=
+  ruleMatches_eq_selects r key size tags h
+
+/-! ## acts_only_when_due -/
+
+/-- current-version expiration -/
+theorem expire_only_when_due (rules : List Rule) (hwf : WF rules) (now : Int) (objs : List Obj) (c : Call)
+    (hc : c ∈ expirePhase rules now objs) :
+    ∃ o ∈ objs, c = .del o.key none (some o.etag) ∧
+      ∀ created, created ≤ o.lm → expireJustified rules now o.key o.size o.tags created = true := by
+  unfold expirePhase at hc
+  rw [List.mem_filterMap] at hc
+  obtain ⟨o, ho, hsome⟩ := hc
+  obtain ⟨hshape, r, hr, hen, hdue, hmatch⟩ := expireObj_some hsome
+  refine ⟨o, ho, hshape, ?_⟩
+  intro created hcr
+  unfold expireJustified
+  rw [List.any_eq_true]
+  refine ⟨r, hr, ?_⟩
+  rw [← ruleMatches_eq_selects r _ _ _ (hwf r hr)]
+  simp [hen, hmatch, expirationDueBy_of_isDue hcr hdue]
+
+/-- current-version transition -/
+theorem transition_only_when_due (rules : List Rule) (hwf : WF rules) (now : Int) (objs : List Obj) (c : Call)
+    (hc : c ∈ transitionPhase rules now objs) :
+    ∃ o ∈ objs, ∃ target, c = .trans o.key target none (some o.etag) ∧ target ≠ o.cls ∧
+      ∀ created, created ≤ o.lm → transitionJustified rules now o.key o.size o.tags created target = true := by
+  unfold transitionPhase at hc
+  rw [List.mem_filterMap] at hc
+  obtain ⟨o, ho, hsome⟩ := hc
+  obtain ⟨target, hshape, r, hr, hen, hmatch, t, ht, hcls, hne, d, hd, hle⟩ := transitionObj_some hsome
+  refine ⟨o, ho, target, hshape, by rw [← hcls]; exact hne, ?_⟩
+  intro created hcr
+  unfold transitionJustified
+  rw [List.any_eq_true]
+  refine ⟨r, hr, ?_⟩
+  rw [← ruleMatches_eq_selects r _ _ _ (hwf r hr)]
+  have : (r.transitions.any fun t => t.cls == target && transitionDueBy t now created) = true := by
+    rw [List.any_eq_true]
+    exact ⟨t, ht, by simp [hcls, transitionDueBy_of_due hcr hd hle]⟩
+  simp [hen, hmatch, this]
+
+/-- noncurrent-version expiration: the deleted version `v` sits directly after `u` in the key's
+LastModified-sorted listing, is neither latest nor a delete marker, and an enabled matching rule is
+due for every `since ≤ u.lm` and every count of newer versions `≥ pre.length`. -/
+theorem nc_expire_only_when_due (g : Bool) (rules : List Rule) (hwf : WF rules) (now : Int) (vs : List Ver) (c : Call)
+    (hc : c ∈ ncExpirePhase g rules now vs) :
+    ∃ k pre u v post, group vs k = pre ++ u :: v :: post ∧ v ∈ vs ∧ v.latest = false ∧ v.dm = false ∧
+      c = .del v.key (some v.vid) (if g then v.etag else none) ∧
+      ∀ since newer, since ≤ u.lm → pre.length ≤ newer →
+        ncExpireJustified rules now v.key v.size v.stags since newer = true := by
+  unfold ncExpirePhase at hc
+  rw [List.mem_flatMap] at hc
+  obtain ⟨k, _, hw⟩ := hc
+  obtain ⟨pre, u, v, post, cnt, hsplit, hl, hdm, hf, hcnt⟩ :=
+    ncWalk_sound (ncExpireVer g rules now) (group vs k) [] none 0 rfl (by simp) c hw
+  simp only [List.nil_append] at hsplit
+  obtain ⟨hshape, r, hr, hen, e, he, hdue, hret, hmatch⟩ := ncExpireVer_some hf
+  have hv : v ∈ group vs k := by rw [hsplit]; simp
+  refine ⟨k, pre, u, v, post, hsplit, (mem_group hv).1, hl, hdm, hshape, ?_⟩
+  intro since newer hs hn
+  unfold ncExpireJustified
+  rw [List.any_eq_true]
+  refine ⟨r, hr, ?_⟩
+  rw [← ruleMatches_eq_selects r _ _ _ (hwf r hr)]
+  simp [hen, hmatch, ncExpirationDueBy_of he hdue hret hs (Nat.le_trans hcnt hn)]
+
+/-- noncurrent-version transition -/
+theorem nc_transition_only_when_due (rules : List Rule) (hwf : WF rules) (now : Int) (vs : List Ver) (c : Call)
+    (hc : c ∈ ncTransitionPhase rules now vs) :
+    ∃ k pre u v post target, group vs k = pre ++ u :: v :: post ∧ v ∈ vs ∧ v.latest = false ∧ v.dm = false ∧
+      c = .trans v.key target (some v.vid) v.etag ∧ target ≠ v.cls ∧
+      ∀ since newer, since ≤ u.lm → pre.length ≤ newer →
+        ncTransitionJustified rules now v.key v.size v.stags since newer target = true := by
+  unfold ncTransitionPhase at hc
+  rw [List.mem_flatMap] at hc
+  obtain ⟨k, _, hw⟩ := hc
+  obtain ⟨pre, u, v, post, cnt, hsplit, hl, hdm, hf, hcnt⟩ :=
+    ncWalk_sound (ncTransitionVer rules now) (group vs k) [] none 0 rfl (by simp) c hw
+  simp only [List.nil_append] at hsplit
+  obtain ⟨target, hshape, r, hr, hen, hmatch, t, ht, hcls, hne, hret, d, hd, hle⟩ := ncTransitionVer_some hf
+  have hv : v ∈ group vs k := by rw [hsplit]; simp
+  refine ⟨k, pre, u, v, post, target, hsplit, (mem_group hv).1, hl, hdm, hshape, by rw [← hcls]; exact hne, ?_⟩
+  intro since newer hs hn
+  unfold ncTransitionJustified
+  rw [List.any_eq_true]
+  refine ⟨r, hr, ?_⟩
+  rw [← ruleMatches_eq_selects r _ _ _ (hwf r hr)]
+  have : (r.ncTransitions.any fun t => t.cls == target && ncTransitionDueBy t now since newer) = true := by
+    rw [List.any_eq_true]
+    exact ⟨t, ht, by simp [hcls, ncTransitionDueBy_of hd hle hret hs (Nat.le_trans hcnt hn)]⟩
+  simp [hen, hmatch, this]
+
+/-- expired object delete marker: the removed version is a listed current delete marker of a key
+none of whose listed versions "blocks" (as it is: is an object version; `strictDm`: is anything but
+a current delete marker), and an enabled ExpiredObjectDeleteMarker rule selects the key. -/
+theorem dm_only_when_expired (s : Bool) (rules : List Rule) (hwf : WF rules) (vs : List Ver) (c : Call)
+    (hc : c ∈ dmPhase s rules vs) :
+    ∃ d ∈ vs, d.latest = true ∧ d.dm = true ∧ c = .del d.key (some d.vid) none ∧
+      (∀ v ∈ vs, v.key = d.key → blocksDm s v = false) ∧ dmJustified rules d.key = true := by
+  unfold dmPhase at hc
+  rw [List.mem_filterMap] at hc
+  obtain ⟨k, _, hsome⟩ := hc
+  obtain ⟨d, hd, hl, hdm, hall, hshape, r, hr, hrule, hmatch⟩ := dmKey_some hsome
+  rw [List.mem_filter] at hd
+  have hk : d.key = k := by simpa using hd.2
+  refine ⟨d, hd.1, hl, hdm, hshape, ?_, ?_⟩
+  · intro v hv hvk
+    exact hall v (List.mem_filter.2 ⟨hv, by simp [hvk, hk]⟩)
+  · obtain ⟨hen, e, he, hdmflag⟩ := isDmRule_spec hrule
+    unfold dmJustified
+    rw [List.any_eq_true]
+    refine ⟨r, hr, ?_⟩
+    have hsel : selects r d.key d.size [] = true := by
+      rw [← ruleMatches_eq_selects r _ _ _ (hwf r hr)]; exact hmatch
+    have hp : prefixSelects r d.key = true := by
+      unfold selects at hsel
+      simp only [Bool.and_eq_true] at hsel
+      exact hsel.1.1.1
+    simp [hen, hp, he, hdmflag]
+
+/-- abort of incomplete multipart uploads -/
+theorem abort_only_when_due (rules : List Rule) (hwf : WF rules) (now : Int) (us : List Upl) (c : Call)
+    (hc : c ∈ abortPhase rules now us) :
+    ∃ u ∈ us, c = .abort u.key u.uploadId ∧
+      ∀ initiated, initiated ≤ u.initiated → abortJustified rules now u.key initiated = true := by
+  unfold abortPhase at hc
+  rw [List.mem_filterMap] at hc
+  obtain ⟨u, hu, hsome⟩ := hc
+  obtain ⟨hshape, r, hr, hen, hmatch, hdue⟩ := abortUpl_some hsome
+  refine ⟨u, hu, hshape, ?_⟩
+  intro initiated hi
+  unfold abortJustified
+  rw [List.any_eq_true]
+  refine ⟨r, hr, ?_⟩
+  have hsel : selects r u.key 0 [] = true := by
+    rw [← ruleMatches_eq_selects r _ _ _ (hwf r hr)]; exact hmatch
+  have hp : prefixSelects r u.key = true := by
+    unfold selects at hsel
+    simp only [Bool.and_eq_true] at hsel
+    exact hsel.1.1.1
+  unfold abortDue at hdue
+  split at hdue
+  · rename_i n hn
+    have h1 := isDue_some.1 hdue
+    rw [dueDays_eq_s3Due] at h1
+    have h2 := s3Due_mono n hi
+    have : s3Due initiated n ≤ now := by omega
+    simp [hen, hp, hn, this]
+  · simp [isDue] at hdue
+
+/-- **acts_only_when_due.** Whatever call any sweep of the reconciler issues at clock `now` — for
+all rule sets, listings and clocks — is a delete / transition / abort of a LISTED entry that an
+enabled, matching rule makes due under S3 semantics (shape and justification: the six theorems
+above, collected). In particular no disabled rule, no non-matching rule and no rule whose due
+instant lies after `now` ever causes a call. -/
+theorem acts_only_when_due (rules : List Rule) (hwf : WF rules) (now : Int) :
+    (∀ objs c, c ∈ expirePhase rules now objs →
+      ∃ o ∈ objs, c = .del o.key none (some o.etag) ∧
+        ∀ created, created ≤ o.lm → expireJustified rules now o.key o.size o.tags created = true) ∧
+    (∀ objs c, c ∈ transitionPhase rules now objs →
+      ∃ o ∈ objs, ∃ target, c = .trans o.key target none (some o.etag) ∧ target ≠ o.cls ∧
+        ∀ created, created ≤ o.lm → transitionJustified rules now o.key o.size o.tags created target = true) ∧
+    (∀ g vs c, c ∈ ncExpirePhase g rules now vs →
+      ∃ k pre u v post, group vs k = pre ++ u :: v :: post ∧ v ∈ vs ∧ v.latest = false ∧ v.dm = false ∧
+        c = .del v.key (some v.vid) (if g then v.etag else none) ∧
+        ∀ since newer, since ≤ u.lm → pre.length ≤ newer →
+          ncExpireJustified rules now v.key v.size v.stags since newer = true) ∧
+    (∀ vs c, c ∈ ncTransitionPhase rules now vs →
+      ∃ k pre u v post target, group vs k = pre ++ u :: v :: post ∧ v ∈ vs ∧ v.latest = false ∧ v.dm = false ∧
+        c = .trans v.key target (some v.vid) v.etag ∧ target ≠ v.cls ∧
+        ∀ since newer, since ≤ u.lm → pre.length ≤ newer →
+          ncTransitionJustified rules now v.key v.size v.stags since newer target = true) ∧
+    (∀ s vs c, c ∈ dmPhase s rules vs →
+      ∃ d ∈ vs, d.latest = true ∧ d.dm = true ∧ c = .del d.key (some d.vid) none ∧
+        (∀ v ∈ vs, v.key = d.key → blocksDm s v = false) ∧ dmJustified rules d.key = true) ∧
+    (∀ us c, c ∈ abortPhase rules now us →
+      ∃ u ∈ us, c = .abort u.key u.uploadId ∧
+        ∀ initiated, initiated ≤ u.initiated → abortJustified rules now u.key initiated = true) :=
+  ⟨fun objs c h => expire_only_when_due rules hwf now objs c h,
+   fun objs c h => transition_only_when_due rules hwf now objs c h,
+   fun g vs c h => nc_expire_only_when_due g rules hwf now vs c h,
+   fun vs c h => nc_transition_only_when_due rules hwf now vs c h,
+   fun s vs c h => dm_only_when_expired s rules hwf vs c h,
+   fun us c h => abort_only_when_due rules hwf now us c h⟩
+
+/-! ## keeps_newer_noncurrent -/
+
+/-- **keeps_newer_noncurrent_partial.** If every enabled NoncurrentVersionExpiration rule retains at
+least `N` newer noncurrent versions, then every deleted version has MORE than `N` listed entries
+before its predecessor in the key's LastModified-sorted listing — i.e. at least `N + 1` entries lie
+between the head of the list (the current version) and it. Under S3's reading of a listing
+(LastModified order = version order) these are newer noncurrent versions, so the `N` most recent
+noncurrent versions are never deleted (the code even keeps `N + 1`).
+Partial: the order is the LastModified order; see `lastmodified_order_breaks_retention`. -/
+theorem keeps_newer_noncurrent_partial (g : Bool) (rules : List Rule) (now : Int) (vs : List Ver) (N : Nat)
+    (hN : ∀ r ∈ rules, isNcExpirationRule r = true →
+      ∀ e, r.ncExpiration = some e → ∃ k, e.newer = some k ∧ (N : Int) ≤ k)
+    (c : Call) (hc : c ∈ ncExpirePhase g rules now vs) :
+    ∃ k pre u v post, group vs k = pre ++ u :: v :: post ∧
+      c = .del v.key (some v.vid) (if g then v.etag else none) ∧ N < pre.length := by
+  unfold ncExpirePhase at hc
+  rw [List.mem_flatMap] at hc
+  obtain ⟨k, _, hw⟩ := hc
+  obtain ⟨pre, u, v, post, cnt, hsplit, _, _, hf, hcnt⟩ :=
+    ncWalk_sound (ncExpireVer g rules now) (group vs k) [] none 0 rfl (by simp) c hw
+  simp only [List.nil_append] at hsplit
+  obtain ⟨hshape, r, hr, hen, e, he, _, hret, _⟩ := ncExpireVer_some hf
+  refine ⟨k, pre, u, v, post, hsplit, hshape, ?_⟩
+  have hrule : isNcExpirationRule r = true := by simp [isNcExpirationRule, hen, he]
+  obtain ⟨kk, hk, hNk⟩ := hN r hr hrule e he
+  simp only [retained, hk] at hret
+  have : ¬ ((cnt : Int) ≤ kk) := by simpa using hret
+  omega
+
+/-- the same for NoncurrentVersionTransition: a version is transitioned only if more than the
+rule's NewerNoncurrentVersions entries precede its predecessor in the sorted listing -/
+theorem nc_transition_respects_retention (rules : List Rule) (now : Int) (vs : List Ver) (N : Nat)
+    (hN : ∀ r ∈ rules, ∀ t ∈ r.ncTransitions, ∃ k, t.newer = some k ∧ (N : Int) ≤ k)
+    (c : Call) (hc : c ∈ ncTransitionPhase rules now vs) :
+    ∃ k pre u v post target, group vs k = pre ++ u :: v :: post ∧
+      c = .trans v.key target (some v.vid) v.etag ∧ N < pre.length := by
+  unfold ncTransitionPhase at hc
+  rw [List.mem_flatMap] at hc
+  obtain ⟨k, _, hw⟩ := hc
+  obtain ⟨pre, u, v, post, cnt, hsplit, _, _, hf, hcnt⟩ :=
+    ncWalk_sound (ncTransitionVer rules now) (group vs k) [] none 0 rfl (by simp) c hw
+  simp only [List.nil_append] at hsplit
+  obtain ⟨target, hshape, r, hr, _, _, t, ht, _, _, hret, _⟩ := ncTransitionVer_some hf
+  refine ⟨k, pre, u, v, post, target, hsplit, hshape, ?_⟩
+  obtain ⟨kk, hk, hNk⟩ := hN r hr t ht
+  simp only [retained, hk] at hret
+  have : ¬ ((cnt : Int) ≤ kk) := by simpa using hret
+  omega
+
+/-! ### negation witness: LastModified order is not version order -/
+
+private def b (n : Nat) : Bytes := [UInt8.ofNat n]
+
+/-- One key, five versions written in the order 1 … 5 (5 is current); the SQL store reports as
+LastModified the last row update, and versions 1–3 were tagged later (LastModified 101–103). -/
+def bumpedListing : List Ver :=
+  [ { key := b 0, vid := b 5, dm := false, latest := true,  lm := 50,  size := 1, etag := some (b 5), cls := [], stags := [] },
+    { key := b 0, vid := b 4, dm := false, latest := false, lm := 49,  size := 1, etag := some (b 4), cls := [], stags := [] },
+    { key := b 0, vid := b 3, dm := false, latest := false, lm := 103, size := 1, etag := some (b 3), cls := [], stags := [] },
+    { key := b 0, vid := b 2, dm := false, latest := false, lm := 102, size := 1, etag := some (b 2), cls := [], stags := [] },
+    { key := b 0, vid := b 1, dm := false, latest := false, lm := 101, size := 1, etag := some (b 1), cls := [], stags := [] } ]
+
+def keepOneRule : Rule :=
+  { enabled := true, pfx := none, filter := some { pfx := some [], tag := none, gt := none, lt := none, and := none },
+    expiration := none, abort := none, transitions := [],
+    ncExpiration := some { days := some 1, newer := some 1 }, ncTransitions := [] }
+
+/-- **lastmodified_order_breaks_retention.** With NewerNoncurrentVersions = 1 the sweep deletes
+version 4 — the MOST RECENT noncurrent version, which S3 retains — because versions 2 and 3 are
+counted as "newer" by their LastModified. (Replayed on the real storage: harness scenario
+"retention count after the three oldest versions were re-tagged".) -/
+theorem lastmodified_order_breaks_retention :
+    ncExpirePhase false [keepOneRule] (10 * dayNs) bumpedListing = [.del (b 0) (some (b 4)) none] := by
+  decide
+
+/-- non-vacuity of `keeps_newer_noncurrent_partial`: on the same history with LastModified =
+creation instant, version 4 and version 3 are kept and only 2 and 1 go. -/
+example :
+    ncExpirePhase false [keepOneRule] (10 * dayNs)
+      (bumpedListing.map fun v => { v with lm := if v.lm > 100 then v.lm - 100 + 44 else v.lm })
+    = [.del (b 0) (some (b 2)) none, .del (b 0) (some (b 1)) none] := by
+  decide
+
+/-! ## expiration_beats_transition -/
+
+/-- **expiration_beats_transition.** In one pass over the current versions (expiration sweep, then
+a fresh listing, then the transition sweep) an object for which an expiration call is issued is
+never transitioned — for all rules, clocks and listings. -/
+theorem expiration_beats_transition (rules : List Rule) (now : Int) (objs : List Obj) (o : Obj)
+    (ho : o ∈ objs) (hexp : (expireObj rules now o).isSome = true) :
+    ∀ c ∈ (currentPass rules now objs).2, ∀ target vid, c ≠ .trans o.key target vid (some o.etag) := by
+  intro c hc target vid heq
+  unfold currentPass at hc
+  simp only at hc
+  split at hc
+  · rename_i htr
+    -- the expiration sweep ran and issued the guarded delete of o
+    obtain ⟨c0, hc0⟩ := Option.isSome_iff_exists.1 hexp
+    obtain ⟨hshape, r, hr, hen, hdue, hmatch⟩ := expireObj_some hc0
+    have hany : rules.any isExpirationRule = true := by
+      rw [List.any_eq_true]
+      refine ⟨r, hr, ?_⟩
+      unfold isExpirationRule
+      unfold expirationDue at hdue
+      cases he : r.expiration with
+      | none => simp [he, isDue] at hdue
+      | some e =>
+        simp only [he] at hdue
+        cases hd : e.date with
+        | some d => simp [hen, hd]
+        | none =>
+          cases hn : e.days with
+          | none => simp [hd, hn, isDue] at hdue
+          | some n => simp [hen, hn]
+    simp only [hany, if_true] at hc
+    have hin : Call.del o.key none (some o.etag) ∈ expirePhase rules now objs := by
+      unfold expirePhase
+      rw [List.mem_filterMap]
+      exact ⟨o, ho, by rw [hc0, hshape]⟩
+    unfold transitionPhase at hc
+    rw [List.mem_filterMap] at hc
+    obtain ⟨o', ho', hsome⟩ := hc
+    obtain ⟨t', hshape', _⟩ := transitionObj_some hsome
+    have hrem := foldl_applyCall_removed _ objs o.key o.etag hin o' ho'
+    rw [hshape'] at heq
+    simp only [Call.trans.injEq, Option.some.injEq] at heq
+    exact hrem ⟨heq.1, heq.2.2.2⟩
+  · simp at hc
+
+/-! ## if_match_guard -/
+
+/-- **if_match_guard.** Every mutating call on an object (version) carries the ETag the listing
+showed for exactly that entry, so the storage's precondition rejects the call if the entry was
+replaced in between: for the current-version sweeps and the noncurrent transition as the code is,
+for the noncurrent expiration in the repaired variant (`guardVersioned = true`). -/
+theorem if_match_guard (rules : List Rule) (now : Int) :
+    (∀ objs c, c ∈ expirePhase rules now objs → ∃ o ∈ objs, c = .del o.key none (some o.etag)) ∧
+    (∀ objs c, c ∈ transitionPhase rules now objs → ∃ o ∈ objs, ∃ t, c = .trans o.key t none (some o.etag)) ∧
+    (∀ vs c, c ∈ ncTransitionPhase rules now vs → ∃ v ∈ vs, ∃ t, c = .trans v.key t (some v.vid) v.etag) ∧
+    (∀ vs c, c ∈ ncExpirePhase true rules now vs → ∃ v ∈ vs, c = .del v.key (some v.vid) v.etag) := by
+  refine ⟨?_, ?_, ?_, ?_⟩
+  · intro objs c hc
+    unfold expirePhase at hc
+    rw [List.mem_filterMap] at hc
+    obtain ⟨o, ho, hsome⟩ := hc
+    exact ⟨o, ho, (expireObj_some hsome).1⟩
+  · intro objs c hc
+    unfold transitionPhase at hc
+    rw [List.mem_filterMap] at hc
+    obtain ⟨o, ho, hsome⟩ := hc
+    obtain ⟨t, hshape, _⟩ := transitionObj_some hsome
+    exact ⟨o, ho, t, hshape⟩
+  · intro vs c hc
+    unfold ncTransitionPhase at hc
+    rw [List.mem_flatMap] at hc
+    obtain ⟨k, _, hw⟩ := hc
+    obtain ⟨pre, u, v, post, cnt, hsplit, _, _, hf, _⟩ :=
+      ncWalk_sound (ncTransitionVer rules now) (group vs k) [] none 0 rfl (by simp) c hw
+    simp only [List.nil_append] at hsplit
+    obtain ⟨t, hshape, _⟩ := ncTransitionVer_some hf
+    have hv : v ∈ group vs k := by rw [hsplit]; simp
+    exact ⟨v, (mem_group hv).1, t, hshape⟩
+  · intro vs c hc
+    unfold ncExpirePhase at hc
+    rw [List.mem_flatMap] at hc
+    obtain ⟨k, _, hw⟩ := hc
+    obtain ⟨pre, u, v, post, cnt, hsplit, _, _, hf, _⟩ :=
+      ncWalk_sound (ncExpireVer true rules now) (group vs k) [] none 0 rfl (by simp) c hw
+    simp only [List.nil_append] at hsplit
+    have hv : v ∈ group vs k := by rw [hsplit]; simp
+    exact ⟨v, (mem_group hv).1, by simpa using (ncExpireVer_some hf).1⟩
+
+/-- negation witness for the code as it is: the noncurrent-version expiration addresses the
+version by id only. A version id is not unique over time for the `null` version, which a write to
+a versioning-suspended bucket replaces in place (replayed on the real storage: harness scenario
+"a noncurrent null version is replaced … between listing and its delete"). -/
+theorem unguarded_noncurrent_delete_witness :
+    ncExpirePhase false [keepOneRule] (10 * dayNs)
+      [ { key := b 0, vid := b 9, dm := false, latest := true,  lm := 50, size := 1, etag := some (b 9), cls := [], stags := [] },
+        { key := b 0, vid := b 8, dm := false, latest := false, lm := 40, size := 1, etag := some (b 8), cls := [], stags := [] },
+        { key := b 0, vid := b 7, dm := false, latest := false, lm := 30, size := 1, etag := some (b 7), cls := [], stags := [] },
+        { key := b 0, vid := b 6, dm := false, latest := false, lm := 20, size := 1, etag := some (b 6), cls := [], stags := [] } ]
+    = [.del (b 0) (some (b 6)) none] := by
+  decide
+
+/-! ## expired object delete markers: as it is vs. S3 -/
+
+/-- repaired variant: the removed marker's key has no listed version other than current delete
+markers, i.e. S3's "delete marker with zero noncurrent versions" -/
+theorem dm_strict_sole_version (rules : List Rule) (hwf : WF rules) (vs : List Ver) (c : Call)
+    (hc : c ∈ dmPhase true rules vs) :
+    ∃ d ∈ vs, c = .del d.key (some d.vid) none ∧ ∀ v ∈ vs, v.key = d.key → v.latest = true ∧ v.dm = true := by
+  obtain ⟨d, hd, _, _, hshape, hall, _⟩ := dm_only_when_expired true rules hwf vs c hc
+  refine ⟨d, hd, hshape, ?_⟩
+  intro v hv hk
+  have := hall v hv hk
+  simp only [blocksDm, if_true, Bool.not_eq_false', Bool.and_eq_true] at this
+  exact this
+
+/-- negation witness for the code as it is: two stacked delete markers and no object version — the
+current marker is removed although a noncurrent version (the older marker) remains. -/
+theorem dm_stack_witness :
+    dmPhase false
+      [{ enabled := true, pfx := none, filter := some { pfx := some [], tag := none, gt := none, lt := none, and := none },
+         expiration := some { days := none, date := none, dm := some true }, abort := none, transitions := [],
+         ncExpiration := none, ncTransitions := [] }]
+      [ { key := b 0, vid := b 2, dm := true, latest := true,  lm := 50, size := 0, etag := none, cls := [], stags := [] },
+        { key := b 0, vid := b 1, dm := true, latest := false, lm := 40, size := 0, etag := none, cls := [], stags := [] } ]
+    = [.del (b 0) (some (b 2)) none] := by
+  decide
+
+/-! ## non-vacuity of the hypotheses -/
+
+/-- `WF` holds of a non-trivial rule list, and the "only when due" theorems are about runs that do
+issue calls: a Days = 3 rule at the first instant it is due (object created 10:30 → due at the
+fourth midnight after) deletes, one nanosecond earlier it does not. -/
+example : WF [keepOneRule] := by
+  intro r hr
+  simp at hr
+  subst hr
+  decide
+
+example :
+    let r : Rule := { enabled := true, pfx := some [], filter := none,
+                      expiration := some { days := some 3, date := none, dm := none }, abort := none,
+                      transitions := [], ncExpiration := none, ncTransitions := [] }
+    let o : Obj := { key := b 1, lm := 10 * 3600 * 1000000000 + 30 * 60 * 1000000000, etag := b 7, size := 5, cls := [], ltags := [], stags := [] }
+    expirePhase [r] (4 * dayNs) [o] = [.del (b 1) none (some (b 7))] ∧ expirePhase [r] (4 * dayNs - 1) [o] = [] := by
+  decide
+
 end Pithos.C25
